@@ -23,7 +23,7 @@ let err_name = function
   | TE_object_value_sep -> "object_value_sep" | TE_string -> "string" | TE_comment -> "comment"
   | TE_utf8 -> "utf8" | TE_size -> "size" | TE_memory -> "memory"
 
-let flags_of n = ((n land 1) <> 0, (n land 2) <> 0, (n land 16) <> 0)
+let flags_of n = match flags_of_word (z_of_int n) with (a, b) -> (match a with (s, al) -> (s, al, b))   (* TokFd.flags_of_word *)
 
 let run line =
   match split_on ' ' line with
@@ -98,7 +98,7 @@ let run line =
            | 'V' | 'W' ->
              (* json_tokener_parse_verbose / json_tokener_parse: a fresh default parser (depth 32, no flags) on the
                 C string; a value is returned only with status success *)
-             (match tok_new (z_of_int 32) false false false with
+             (match tok_new default_depth false false false with
               | None -> out := "NEWFAIL" :: !out
               | Some tf ->
                 (match parse_ex_cstr strtod_bits tf (bytes_of_hex body) with
@@ -115,7 +115,7 @@ let run line =
              (match String.split_on_char ',' body with
               | [dstr; h] ->
                 let dreq = int_of_string dstr in
-                let deff = if dreq = -1 then 32 else dreq in
+                let deff = if dreq = -1 then int_of_z default_depth else dreq in
                 (match tok_new (z_of_int deff) false false false with
                  | None -> out := "fd -" :: !out
                  | Some tf ->
@@ -128,7 +128,7 @@ let run line =
              (match String.split_on_char ',' body with
               | dstr :: h :: _ ->
                 let dreq = int_of_string dstr in
-                let deff = if dreq = -1 then 32 else dreq in
+                let deff = if dreq = -1 then int_of_z default_depth else dreq in
                 (match tok_new (z_of_int deff) false false false with
                  | None -> out := "fd -" :: !out
                  | Some tf ->
